@@ -404,6 +404,13 @@ func GenR(rng *Rng, prop string, tier string) *RScript {
 			l.prePart = append(l.prePart, p)
 			l.liveP[p.ID] = true // DML is generated until the drop entry below
 		}
+		if prop == "C04" && !fewerSrc && !manyToOne && rng.Pct(12) {
+			// dropped at the source while the service was not running, still present downstream; the catalog lists it as
+			// dropped and the streams are started from saved positions behind its drop message: the reader has to produce
+			// the drop itself (no message of the collection is left to read)
+			c.State, c.Pre, c.SeekNil = "dropped", true, false
+			l.dropped = true
+		}
 		s.Colls = append(s.Colls, c)
 		lives = append(lives, l)
 		s.Ops = append(s.Ops, &ROp{Kind: "start", Coll: c.ID, AfterRound: -1, AfterColl: crossedAfter})
